@@ -522,7 +522,7 @@ pub fn run(ctx: &Ctx) -> i32 {
         tier,
         seed: ctx.seed,
         level: "exploration",
-        rule: "two scenario kinds. verifier-level: per seed two key pairs, ~12 certificate classes (replayed, re-signed, planted key bytes, expired, CA, ECDSA, truncations, garbage, single-byte mutations of a valid certificate) x 3 verifiers x 2 signing keys, oracle = accepted cert AND accepted TLS1.3 signature by key K implies attributed PeerId = pub(K); end-to-end: an adversary endpoint (holding key Y only) dials / is dialed by real Networks with 10 hostile identities, interleaved with honest RPCs whose content names other identities; oracle = every PeerId attributed in handlers, responses, events and dial results equals the ground-truth owner of the remote fabric address. distinct by (certificate class set | adversary action, admitted?, loss)".into(),
+        rule: "two scenario kinds. verifier-level: per seed two key pairs, ~12 certificate classes (replayed, re-signed, planted key bytes, expired, CA, ECDSA, truncations, garbage, single-byte mutations of a valid certificate) x 3 verifiers x 2 signing keys, oracle = accepted cert AND accepted TLS1.3 signature by key K implies attributed PeerId = pub(K); end-to-end: an adversary endpoint (holding key Y only) dials / is dialed by real Networks with 10 hostile identities, interleaved with honest RPCs whose content names other identities; oracle = every PeerId attributed in handlers, responses, events and dial results equals the ground-truth owner of the remote fabric address. distinct by (certificate class set | adversary action, admitted?, loss) The planted-key class carries the other party's complete SubjectPublicKeyInfo byte for byte before the real one (serial number, BMPString name attribute) and after it (extension).".into(),
         assumptions: vec![
             "Ed25519/TLS 1.3 cryptographic strength assumed; adversary limited to what rustls' public traits and DER splicing can express".into(),
         ],
